@@ -7,10 +7,11 @@
 #include "vh.h"
 
 #define NOW 1700000000L
-#define NOPS 18
+#define NOPS 24
 static const char *OPNAME[NOPS] = { "claim_del(exp)", "claim_del(nbf)", "claim_del(iss)", "claim_del(sub)", "claim_del(aud)", "claim_del(all)",
 	"claim_set!(exp=9999999999)", "claim_set!(nbf=0)", "claim_set!(iss=me)", "claim_set!(sub=s)", "claim_set!(aud=x)",
-	"header_del(alg)", "header_del(all)", "header_set!(alg=none)", "header_set!(alg=HS256)", "header_set!(alg=ES256)", "claim_set!(exp='str')", "noop" };
+	"header_del(alg)", "header_del(all)", "header_set!(alg=none)", "header_set!(alg=HS256)", "header_set!(alg=ES256)", "claim_set!(exp='str')", "noop",
+	"claim_get(exp as STR)", "claim_get(iss as INT, aud as BOOL)", "header_get(alg as INT, typ as BOOL)", "get(absent names)", "get(JSON whole, pretty)", "get(right types), jwt_get_alg" };
 
 static void apply_op(jwt_t *jwt, int op)
 {
@@ -33,6 +34,17 @@ static void apply_op(jwt_t *jwt, int op)
 	case 14: jwt_set_SET_STR(&v, "alg", "HS256"); v.replace = 1; jwt_header_set(jwt, &v); break;
 	case 15: jwt_set_SET_STR(&v, "alg", "ES256"); v.replace = 1; jwt_header_set(jwt, &v); break;
 	case 16: jwt_set_SET_STR(&v, "exp", "str"); v.replace = 1; jwt_claim_set(jwt, &v); break;
+	/* read-only programs: observing must not change anything */
+	case 18: jwt_set_GET_STR(&v, "exp"); jwt_claim_get(jwt, &v); jwt_set_GET_STR(&v, "nbf"); jwt_claim_get(jwt, &v); break;
+	case 19: jwt_set_GET_INT(&v, "iss"); jwt_claim_get(jwt, &v); jwt_set_GET_BOOL(&v, "aud"); jwt_claim_get(jwt, &v); jwt_set_GET_INT(&v, "sub"); jwt_claim_get(jwt, &v); break;
+	case 20: jwt_set_GET_INT(&v, "alg"); jwt_header_get(jwt, &v); jwt_set_GET_BOOL(&v, "typ"); jwt_header_get(jwt, &v); break;
+	case 21: jwt_set_GET_STR(&v, "no-such-claim"); jwt_claim_get(jwt, &v); jwt_set_GET_INT(&v, "no-such-header"); jwt_header_get(jwt, &v);
+		 jwt_set_GET_JSON(&v, "nope"); jwt_claim_get(jwt, &v); jwt_set_GET_STR(&v, ""); jwt_claim_get(jwt, &v); jwt_set_GET_INT(&v, NULL); jwt_header_get(jwt, &v); break;
+	case 22: jwt_set_GET_JSON(&v, NULL); v.pretty = 1; if (jwt_claim_get(jwt, &v) == JWT_VALUE_ERR_NONE) free(v.json_val);
+		 jwt_set_GET_JSON(&v, NULL); if (jwt_header_get(jwt, &v) == JWT_VALUE_ERR_NONE) free(v.json_val);
+		 jwt_set_GET_JSON(&v, "exp"); if (jwt_claim_get(jwt, &v) == JWT_VALUE_ERR_NONE) free(v.json_val); break;
+	case 23: jwt_set_GET_INT(&v, "exp"); jwt_claim_get(jwt, &v); jwt_set_GET_STR(&v, "iss"); jwt_claim_get(jwt, &v); jwt_set_GET_STR(&v, "alg"); jwt_header_get(jwt, &v);
+		 (void)jwt_get_alg(jwt); break;
 	default: break;
 	}
 }
